@@ -15,13 +15,13 @@ open OdxVerif.Bits OdxVerif.OdxM
      decodeMessage ps pdu true = .ok (complete ps v trig, pdu.length)                                   -/
 
 /-- **C01, atomic tier.** -/
-theorem C01_roundtrip_partial (enc : Option Enc) (hk : int32Known enc = true) (bl : Nat) (hbl : 1 ≤ bl) (v : Int)
+theorem C01_roundtrip_partial (enc : Option Enc) (hk : int32Known enc = true) (bl : Nat) (hbl : 1 ≤ bl) (hbl64 : bl ≤ 64) (v : Int)
     (hr : Spec.representable enc bl v) (hl : Bool) (s : EncState) (hmsg : AllBytes s.msg) :
     ∃ s', emplaceAtomic (.int v) bl .int32 enc hl none s true = .ok ((), s') ∧
       AllBytes s'.msg ∧
       extractAtomic bl .int32 enc hl { msg := s'.msg, cursorByte := s.cursorByte, cursorBit := s.cursorBit } true =
         .ok (.int v, { msg := s'.msg, cursorByte := s'.cursorByte, cursorBit := 0 }) :=
-  atomic_int32_roundtrip enc hk bl hbl v hr hl s hmsg
+  atomic_int32_roundtrip enc hk bl hbl hbl64 v hr hl s hmsg
 
 /-- **Frame.** What the decoder reads for an object at `(pos, k, bp, bl)` depends only on that object's
     own `bl` bits: two messages that agree on them give the same raw value. Hence a later write that
